@@ -56,7 +56,7 @@ class Gen:
 
     def __init__(self, rnd: random.Random, *, ncomps=(1, 4), depth=3, width=3, provide=False,
                  elems=False, collide=True, required=0.04, loops=True, withs=True, dyn_fill=True,
-                 isf=True, aliases=True):
+                 isf=True, aliases=True, hooks=0.0):
         self.r = rnd
         self.ncomps = ncomps
         self.depth = depth
@@ -70,6 +70,7 @@ class Gen:
         self.dyn_fill = dyn_fill
         self.isf = isf
         self.aliases = aliases
+        self.hooks = hooks
         self.tid = 0
         self.eid = 0
 
@@ -106,6 +107,13 @@ class Gen:
                 data.append(datadef("cid", "id"))
                 data.append(datadef("me", "self"))
             comps.append({"data": data, "tpl": None, "assets": no_assets()})
+        if self.hooks:
+            for i in range(1, n + 1):
+                if r.random() < self.hooks:
+                    comps[i - 1]["hook"] = {"bx": r.choice(["", "hb", "hb", "x"] if self.collide else ["", "hb"]), "bv": f"B{i}",
+                                            "after": r.choice(["none", "same", "wrap", "wrap", "replace"])}
+                else:
+                    comps[i - 1]["hook"] = {"bx": "", "bv": "", "after": "none"}
         for i in range(n, 0, -1):
             comps[i - 1]["tpl"] = self.nodes(lex=i, depth=self.depth, in_fill=None, top=True)
             if self.elems:
@@ -171,7 +179,8 @@ class Gen:
         if t == "text":
             return self._t()
         if t == "var":
-            x = r.choice(self.SCALARS + (["i", "w"] if r.random() < 0.5 else []) + (["inj_p.f", "inj_q.g"] if self.provide else []))
+            x = r.choice(self.SCALARS + (["i", "w"] if r.random() < 0.5 else []) + (["inj_p.f", "inj_q.g"] if self.provide else [])
+                         + (["hb", "hb"] if self.hooks else []))
             if "." in x:
                 a, f = x.split(".")
                 return {"t": "fld", "x": a, "f": f}
@@ -438,6 +447,20 @@ def make_component(prog, idx: int, tag: str, log: Optional[list] = None, extra: 
         if css:
             md["css"] = css
         attrs["Media"] = type("Media", (), md)
+    hook = spec.get("hook")
+    if hook:
+        if hook["bx"]:
+            def on_render_before(self, context, template):
+                context[hook["bx"]] = hook["bv"]
+            attrs["on_render_before"] = on_render_before
+        if hook["after"] != "none":
+            def on_render_after(self, context, template, content):
+                if hook["after"] == "wrap":
+                    return f"[A{idx}]{content}[/A{idx}]"
+                if hook["after"] == "replace":
+                    return f"[R{idx}]"
+                return content
+            attrs["on_render_after"] = on_render_after
     if extra:
         attrs.update(extra)
     name = {"ascii": f"VfC{idx}", "under": f"_vf_{idx}_c", "uni": f"VfTabl\u00e9{idx}"}[a.get("name", "ascii")]
